@@ -1377,6 +1377,24 @@ def r51_strategy_table(ctx, sc: SimCtx):
     h = h[0] if h else tr.handlers[0]
     strategies = {k: v for k, v in sc.enums['ErrorStrategy'].items() if isinstance(v, int)}
     ctx.floor('R5.1', 'error strategies', len(strategies), 5)
+    # the strategy the handler consults must be read when the failure is handled (it may be changed during the run, also by handlers)
+    stale = []
+    for c in walk_shallow(h):
+        if isinstance(c, ast.Compare) and len(c.comparators) == 1:
+            sides = [c.left, c.comparators[0]]
+            if any(unparse(x).startswith('ErrorStrategy.') for x in sides):
+                for x in sides:
+                    if isinstance(x, ast.Name):
+                        defs_in = [a for a in walk_shallow(h) if isinstance(a, (ast.Assign, ast.AnnAssign)) and
+                                   any(isinstance(t, ast.Name) and t.id == x.id for t in (a.targets if isinstance(a, ast.Assign) else [a.target]))]
+                        if not defs_in:
+                            stale.append((c, x.id))
+    ctx.ob('R5.1', '_run:strategy-read-in-handler', not stale, sample=f'_run: strategy comparisons in the handler read the field at failure time: {not stale}')
+    for (c, nm) in stale[:1]:
+        ctx.finding('R5.1', 'DEVSSimulator._run:stale-strategy', dc, c,
+                    f'the handler decides on the local `{nm}`, assigned before the failure (outside the handler): a strategy set while the run is active '
+                    '(documented as allowed, e.g. from a handler) is ignored, so a pause strategy does not pause / a continue strategy does not continue',
+                    where='DEVSSimulator._run')
     eff = Effects(prog)
     table = {}
     for name, val in strategies.items():
